@@ -7,6 +7,7 @@ from typing import Dict, List, Optional, Set, Tuple
 
 from ..core import AnalysisError, RuleSpec
 from ..pymodel import call_name
+from .. import astq
 
 EXPLANATION = (
     "Two necessary conditions of the fixed/free equivalence. R1 (column table agreement): every "
@@ -33,125 +34,329 @@ def _method(py, cls, name):
     raise AnalysisError(f"{cls}.{name} not found")
 
 
+INF = 10 ** 9
+
+
+class Cards:
+    """Column arithmetic on the raw card: which columns (1-based, inclusive) of `line` does an expression read?"""
+
+    def __init__(self, py, cls: str):
+        self.py, self.cls = py, cls
+        self.env = py.module_env("fixed2free2")
+        self.methods = py.cls(cls).methods
+
+    def const(self, n: Optional[ast.AST]) -> Optional[int]:
+        if n is None:
+            return None
+        v = self.py.eval_const(n, self.env)
+        if isinstance(v, int) and not isinstance(v, bool):
+            return v
+        if isinstance(n, ast.UnaryOp) and isinstance(n.op, ast.USub):
+            v = self.const(n.operand)
+            return -v if v is not None else None
+        return None
+
+    def closure(self, expr: ast.AST, fn: ast.AST) -> List[ast.AST]:
+        """the expression and the local definitions (and one level of `self.helper()` return values) it is made of"""
+        out = astq.expand_locals(expr, fn, depth=5, stop=("line",))
+        extra = []
+        for e in list(out):
+            for c in ast.walk(e):
+                if isinstance(c, ast.Call) and isinstance(c.func, ast.Attribute) and isinstance(c.func.value, ast.Name) \
+                        and c.func.value.id == "self":
+                    m = self._meth(c.func.attr)
+                    if m is not None:
+                        for r in astq.returns(m):
+                            extra += astq.expand_locals(r, m, depth=5, stop=("line",))
+        return out + extra
+
+    def _meth(self, name: str):
+        for k, v in self.methods.items():
+            if k == name or k == f"_{self.cls}{name}":
+                return v
+        return None
+
+    def columns(self, exprs: List[ast.AST], var: str = "line") -> Set[Tuple[int, int]]:
+        cols: Set[Tuple[int, int]] = set()
+        for e in exprs:
+            for n in ast.walk(e):
+                if isinstance(n, ast.Subscript) and isinstance(n.value, ast.Name) and n.value.id == var:
+                    sl = n.slice
+                    if isinstance(sl, ast.Slice):
+                        lo = self.const(sl.lower) if sl.lower is not None else 0
+                        hi = self.const(sl.upper) if sl.upper is not None else INF
+                        if lo is None or hi is None or lo < 0 or (hi is not INF and hi < 0):
+                            continue
+                        cols.add((lo + 1, hi))
+                    else:
+                        i = self.const(sl)
+                        if i is not None and i >= 0:
+                            cols.add((i + 1, i + 1))
+        return cols
+
+    def len_threshold(self, exprs: List[ast.AST], var: str = "line") -> Set[int]:
+        """normalised thresholds T of tests `len(line) > T-1` (i.e. 'the card has at least T characters'); a test for
+        'at most k' is returned as -(k) """
+        out: Set[int] = set()
+        for e in exprs:
+            for n in ast.walk(e):
+                if isinstance(n, ast.Compare) and len(n.ops) == 1:
+                    l, r, op = n.left, n.comparators[0], n.ops[0]
+                    islen = lambda x: isinstance(x, ast.Call) and call_name(x) == "len" and x.args and \
+                        isinstance(x.args[0], ast.Name) and x.args[0].id == var  # noqa: E731
+                    if islen(l) and self.const(r) is not None:
+                        k = self.const(r)
+                    elif islen(r) and self.const(l) is not None:
+                        k = self.const(l)
+                        op = {ast.Lt: ast.Gt, ast.Gt: ast.Lt, ast.LtE: ast.GtE, ast.GtE: ast.LtE}.get(type(op), type(op))()
+                    else:
+                        continue
+                    if isinstance(op, ast.Gt):
+                        out.add(k + 1)
+                    elif isinstance(op, ast.GtE):
+                        out.add(k)
+                    elif isinstance(op, ast.LtE):
+                        out.add(-k)
+                    elif isinstance(op, ast.Lt):
+                        out.add(-(k - 1))
+        return out
+
+
+def _attr_value(fn, attr: str) -> List[ast.AST]:
+    return [v for _, v in astq.assignments(fn, f"self.{attr}") if v is not None]
+
+
 def r1_columns(ctx, rep):
     py = ctx.py
     an = _method(py, "FortranLine", "__analyse")
     cv = _method(py, "FortranLine", "__convert")
     cl = _method(py, "FortranLine", "continueLine")
-    t = ast.unparse(an)
-
-    def assign(fn, target: str) -> Optional[str]:
-        for n in ast.walk(fn):
-            if isinstance(n, ast.Assign) and ast.unparse(n.targets[0]) == target:
-                return ast.unparse(n.value)
-        return None
+    cards = Cards(py, "FortranLine")
 
     def ob(name, ok, good, bad, node):
         rep.ob(name, ok, good if ok else bad, py.nloc(node))
 
-    v = assign(an, "self.isComment") or ""
-    m = re.search(r"firstchar in '([^']*)'", v)
-    chars = set(m.group(1)) if m else set()
+    def role(fn, attr: str) -> List[ast.AST]:
+        vals = _attr_value(fn, attr)
+        if not vals:
+            raise AnalysisError(f"FortranLine: self.{attr} is not assigned in {fn.name} (anchor vanished)")
+        out = []
+        for v in vals:
+            out += cards.closure(v, fn)
+        return out
+
+    # comment cards: column 1 in {C, c, *, !}
+    exprs = role(an, "isComment")
+    tests = [n for e in exprs for n in ast.walk(e) if isinstance(n, ast.Compare) and isinstance(n.ops[0], ast.In)]
+    chars: Set[str] = set()
+    for t in tests:
+        v = py.eval_const(t.comparators[0], cards.env)
+        if isinstance(v, (str, tuple, list, set)):
+            chars |= set(v)
+    cols = cards.columns([x for t in tests for x in cards.closure(t.left, an)])
     ob("comment characters in column 1", chars == set("cC*!"), "column-1 comment characters are {C, c, *, !}",
        f"column-1 comment characters are {sorted(chars)} (the standard's set is C, c, *, !)", an)
-    v = assign(an, "firstchar") or ""
-    ob("column 1 is line[0]", "line[0]" in v, "firstchar = line[0]", f"firstchar = {v}", an)
-    v = assign(an, "self.label") or ""
-    ob("label field is columns 1-5", "line[0:5]" in v, "label = line[0:5]", f"label = {v}", an)
-    v = assign(an, "cont_char") or ""
-    ob("continuation column is column 6", re.search(r"line\[5\] if len\(line\) >= 6", v) is not None,
-       "cont_char = line[5] when the card has at least 6 columns", f"cont_char = {v}", an)
-    v = assign(an, "self.isContinuation") or ""
-    ok = "cont_char.isspace()" in v and "cont_char == '0'" in v and v.startswith("not (") and "self.is_regular" in v
+    ob("column 1 is line[0]", cols == {(1, 1)}, "the comment test reads column 1",
+       f"the comment test reads columns {sorted(cols)} of the card", an)
+    cols = cards.columns(role(an, "label"))
+    ob("label field is columns 1-5", cols == {(1, 5)}, "label = columns 1-5", f"the label is taken from columns {sorted(cols)}", an)
+    exprs = role(an, "isContinuation")
+    cols = cards.columns(exprs)
+    ob("continuation column is column 6", cols == {(6, 6)}, "the continuation test reads column 6",
+       f"the continuation test reads columns {sorted(cols)}", an)
+    txt = " ".join(ast.unparse(e) for e in exprs)
+    top = _attr_value(an, "isContinuation")[0]
+    # not (blank or '0') and regular   ==   (not blank) and (!= '0') and regular
+    neg_form = any(isinstance(n, ast.UnaryOp) and isinstance(n.op, ast.Not) and ".isspace()" in ast.unparse(n.operand)
+                   and "'0'" in ast.unparse(n.operand) for n in ast.walk(top))
+    conj_form = "not " in ast.unparse(top) and ".isspace()" in ast.unparse(top) and "!= '0'" in ast.unparse(top)
+    ok = (neg_form or conj_form) and "is_regular" in txt and isinstance(top, ast.BoolOp) and isinstance(top.op, ast.And)
     ob("continuation iff column 6 is neither blank nor zero", ok,
        "isContinuation = not (blank or '0') and regular line",
-       f"isContinuation = {v}: a card with blank/0 in column 6 (or another character) is classified wrongly", an)
-    v = assign(an, "self.isShort") or ""
-    ob("short card has no statement field", v in ("len(line) <= 6", "len(line) < 7"), "isShort = len(line) <= 6", f"isShort = {v}", an)
-    v = assign(an, "self.isLong") or ""
-    ok = re.fullmatch(r"len\(line\) > 73 and self\.length_limit", v) is not None
+       f"isContinuation = {ast.unparse(top)}: a card with blank/0 in column 6 (or another character) is classified wrongly", an)
+    th = cards.len_threshold(role(an, "isShort"))
+    ob("short card has no statement field", th == {-6}, "isShort = at most 6 characters", f"isShort thresholds {sorted(th)}", an)
+    exprs = role(an, "isLong")
+    th = cards.len_threshold(exprs)
+    top = _attr_value(an, "isLong")[0]
+    ok = th == {74} and "length_limit" in " ".join(ast.unparse(e) for e in exprs) and \
+        isinstance(top, ast.BoolOp) and isinstance(top.op, ast.And)
     ob("long card: beyond column 72 (+newline) and only under length_limit", ok,
-       "isLong = len(line) > 73 and self.length_limit",
-       f"isLong = {v}: the column-72 limit is applied regardless of the fixed_length_limit option (or at another column)", an)
-    ok = "self.excess_line = '!' + line[72:]" in t and "line = line[:72] + '\\n'" in t
-    ob("text beyond column 72 becomes a comment", ok, "excess = '!' + line[72:], statement = line[:72]", "the column-72 split changed", an)
-    v = assign(cv, "self.code") or ""
-    ob("statement field starts in column 7", "line[6:] if len(line) > 6" in v, "code = line[6:]", f"code = {v}", cv)
-    ok = "self.line_conv = '!' + line[1:]" in ast.unparse(cv)
+       "isLong = more than 73 characters and length_limit",
+       f"isLong = {ast.unparse(top)}: the column-72 limit is applied regardless of the fixed_length_limit option (or at another column)", an)
+    # the split at column 72
+    ex = [v for v in _attr_value(an, "excess_line") if not (isinstance(v, ast.Constant) and v.value == "")]
+    if not ex:
+        raise AnalysisError("FortranLine.__analyse: excess_line is never set to the text beyond the limit")
+    ecols = cards.columns([x for v in ex for x in cards.closure(v, an)])
+    bang = any(isinstance(x, ast.Constant) and x.value == "!" for v in ex for x in ast.walk(v)) or \
+        any(isinstance(v, ast.JoinedStr) and v.values and isinstance(v.values[0], ast.Constant) and str(v.values[0].value).startswith("!") for v in ex)
+    trunc = cards.columns([v for _, v in astq.assignments(an, "line") if v is not None and not ast.unparse(v).startswith("self.")])
+    ok = ecols == {(73, INF)} and bang and (1, 72) in trunc
+    ob("text beyond column 72 becomes a comment", ok, "excess = '!' + columns 73.., statement = columns 1-72",
+       f"the column-72 split changed: excess from columns {sorted(ecols)} (as comment: {bang}), statement keeps {sorted(trunc)}", an)
+    cols = cards.columns(role(cv, "code"))
+    ob("statement field starts in column 7", cols == {(7, INF)}, "code = columns 7..", f"code is taken from columns {sorted(cols)}", cv)
+    # comment cards become ! comments: under isComment, line_conv = '!' + columns 2..
+    ev = astq.trace(cv)
+    alias = {"self.line_conv"}
+    for _ in range(3):
+        for e in ev:
+            if e.kind == "assign" and e.target in alias and e.value is not None:
+                alias |= {n.id for n in ast.walk(e.value) if isinstance(n, ast.Name) and n.id not in ("line",)}
+    cm = [e for e in ev if e.kind == "assign" and e.target in alias
+          and any(c == "self.isComment" for c in e.cond_texts())]
+    ok = bool(cm) and cards.columns(cards.closure(cm[0].value, cv)) == {(2, INF)} and \
+        any(isinstance(x, ast.Constant) and isinstance(x.value, str) and x.value.startswith("!") for x in ast.walk(cm[0].value))
     ob("comment cards become ! comments", ok, "", "comment conversion changed", cv)
     # the long-line predicate is shared by its three users
     users = []
     for fn in (an, cv, cl):
         for n in ast.walk(fn):
-            if isinstance(n, ast.If) and "isLong" in ast.unparse(n.test):
-                users.append((fn.name, ast.unparse(n.test).replace("not (", "").rstrip(")")))
+            if isinstance(n, ast.If):
+                t = n.test
+                neg = False
+                while isinstance(t, ast.UnaryOp) and isinstance(t.op, ast.Not):
+                    t, neg = t.operand, not neg
+                exp = cards.closure(t, fn)
+                txts = [ast.unparse(e) for e in exp]
+                if any("isLong" in x for x in txts):
+                    # canonical form: the set of conjuncts of the (helper-expanded) predicate
+                    core = next((e for e in exp[1:] if "isLong" in ast.unparse(e)), exp[0]) if "isLong" not in txts[0] else exp[0]
+                    conj = sorted(ast.unparse(v) for v in (core.values if isinstance(core, ast.BoolOp) and isinstance(core.op, ast.And) else [core]))
+                    users.append((fn.name.split("__")[-1], tuple(conj)))
     preds = {p for _, p in users}
-    ok = len(users) == 3 and preds == {"self.isLong and self.is_regular"}
+    ok = len(users) == 3 and preds == {("self.isLong", "self.is_regular")}
     ob("the three long-line users test the same predicate", ok, "analyse/convert/continueLine all test isLong and is_regular",
        f"long-line handling is keyed differently in {users}: truncation and continuation disagree when the limit is off", cl)
-    ok = "self.line_conv[:72].rstrip() + ' &'" in ast.unparse(cl) and "temp.ljust(72) + self.excess_line" in ast.unparse(cl)
+    # continuation mark of a long card: placed within the first 72 columns, the excess re-attached after column 72
+    cev = astq.trace(cl)
+    lc = [e for e in cev if e.kind == "assign" and e.target == "self.line_conv" and any("excess_line" in ast.unparse(x) for x in cards.closure(e.value, cl))]
+    ok = False
+    if lc:
+        exp = cards.closure(lc[0].value, cl)
+        cut = cards.columns(exp, var="self.line_conv") | {(1, cards.const(n.slice.upper)) for e in exp for n in ast.walk(e)
+                                                         if isinstance(n, ast.Subscript) and ast.unparse(n.value) == "self.line_conv"
+                                                         and isinstance(n.slice, ast.Slice) and n.slice.lower is None and cards.const(n.slice.upper) is not None}
+        pads = {cards.const(c.args[0]) for e in exp for c in ast.walk(e) if isinstance(c, ast.Call) and isinstance(c.func, ast.Attribute)
+                and c.func.attr == "ljust" and c.args}
+        pads |= {int(m.group(1)) for e in exp for f in ast.walk(e) if isinstance(f, ast.FormattedValue) and f.format_spec is not None
+                 for m in [re.fullmatch(r"<(\d+)", py.eval_const(f.format_spec, cards.env) or "")] if m}
+        amp = any(isinstance(x, ast.Constant) and isinstance(x.value, str) and "&" in x.value for e in exp for x in ast.walk(e))
+        ok = cut == {(1, 72)} and pads == {72} and amp
     ob("continuation mark of a long card is placed before column 73", ok, "", "continueLine's column arithmetic changed", cl)
     # convertToFree: the mark goes onto the buffered statement
     cf = py.func("fixed2free2.convertToFree")
     calls = [c for c in py.walk_calls(cf) if isinstance(c.func, ast.Attribute) and c.func.attr == "continueLine"]
-    ok = len(calls) == 1 and ast.unparse(calls[0].func.value) == "linestack[0]"
+    recv = calls[0].func.value if len(calls) == 1 else None
+    ok = recv is not None and isinstance(recv, ast.Subscript) and cards.const(recv.slice) == 0
     ob("continuation mark goes onto the buffered statement line", ok,
-       "linestack[0] (the last regular statement) is continued; comment/blank cards buffered after it are not",
-       f"`{ast.unparse(calls[0].func.value) if calls else '?'}.continueLine()`: with a comment or blank card between a "
+       "the first buffered card (the last regular statement) is continued; comment/blank cards buffered after it are not",
+       f"`{ast.unparse(recv) if recv is not None else '?'}.continueLine()`: with a comment or blank card between a "
        f"statement and its continuation card the & lands on the comment and the statement is not joined", cf)
-    t = ast.unparse(cf)
-    ok = "if convline.isContinuation and linestack" in t and "if convline.is_regular" in t and "linestack = []" in t
+    cev = astq.trace(cf)
+    stack = ast.unparse(recv.value) if isinstance(recv, ast.Subscript) else "linestack"
+    cont = [e for e in cev if e.kind == "call" and e.node in calls]
+    flush = [e for e in cev if e.kind == "assign" and e.target == stack and e.loops and isinstance(e.value, (ast.List, ast.Call))]
+    ok = bool(cont) and any("isContinuation" in c for c in cont[0].cond_texts()) and any("is_regular" in c for c in cont[0].cond_texts()) \
+        and bool(flush) and any("is_regular" in c for c in flush[0].cond_texts()) and not any("isContinuation" in c for c in flush[0].cond_texts())
     ob("line stack is flushed at every regular card", ok, "", "convertToFree's buffering changed", cf)
 
 
 def r2_form_selection(ctx, rep):
     py = ctx.py
     ff = py.func("Project._fortran_file")
+    sdef = py.func("FortranSourceFile.__init__")
     ctor = [c for c in py.walk_calls(ff) if call_name(c) == "FortranSourceFile"]
     if not ctor:
         raise AnalysisError("_fortran_file: FortranSourceFile call not found")
-    args = [ast.unparse(a) for a in ctor[0].args]
-    ok = len(args) >= 4 and args[3] == "extension in self.fixed_extensions"
-    rep.ob("fixed form is selected by the file extension", ok,
-           "fixed = extension in self.fixed_extensions" if ok else f"4th argument is `{args[3] if len(args) > 3 else '?'}`",
-           py.nloc(ctor[0]))
+    b = astq.bind_args(ctor[0], sdef, skip_self=True)
+    if "fixed" not in b:
+        raise AnalysisError("FortranSourceFile(...) is called without the `fixed` argument")
+
+    def is_fixed_test(e: ast.AST) -> bool:
+        return isinstance(e, ast.Compare) and len(e.ops) == 1 and isinstance(e.ops[0], ast.In) and \
+            "fixed_extensions" in ast.unparse(e.comparators[0]) and "extension" in ast.unparse(e.left)
+    fx = b["fixed"]
+    vals = astq.expand_locals(fx, ff)
+    if any(is_fixed_test(v) for v in vals):
+        rep.ob("fixed form is selected by the file extension", True, f"fixed = {ast.unparse(fx)}", py.nloc(ctor[0]))
+    elif isinstance(fx, ast.Name) and fx.id in [a.arg for a in ff.args.args + ff.args.kwonlyargs]:
+        # decided by the callers: every call site must pass a value that equals `extension in fixed_extensions` on its path
+        pi = py.func("Project.__init__")
+        ev = astq.trace(pi)
+        sites = [e for e in ev if e.kind == "call" and call_name(e.node).endswith("_fortran_file")]
+        if not sites:
+            raise AnalysisError("Project.__init__: no call of _fortran_file found")
+        for e in sites:
+            bb = astq.bind_args(e.node, ff, skip_self=True)
+            v = bb.get(fx.id)
+            conds = e.cond_texts()
+            pos = any(not c.startswith("not (") and "fixed_extensions" in c and " in " in c for c in conds)
+            neg = any(c.startswith("not (") and "fixed_extensions" in c and " in " in c for c in conds)
+            if v is not None and is_fixed_test(v):
+                ok = True
+            elif v is not None and isinstance(v, ast.Constant) and v.value is True:
+                # `True` is right only if the path says "in fixed_extensions" and no earlier test could have taken the file
+                first = conds and not conds[0].startswith("not (") if conds else False
+                ok = pos and all(not c.startswith("not (") or "fixed_extensions" in c for c in conds if " in " in c and "extension" in c)
+            else:
+                ok = neg      # default / False: the path must exclude the fixed extensions
+            rep.ob(f"fixed form is selected by the file extension (call under {conds[-1:] or ['always']})", ok,
+                   "the value passed for `fixed` agrees with `extension in fixed_extensions` on this path" if ok else
+                   f"this call passes fixed={ast.unparse(v) if v is not None else 'default'} under {conds}: the free-form and "
+                   f"fixed-form extension sets overlap at run time (extensions |= fpp_extensions, which contain F/FOR), so a "
+                   f"fixed-form .F/.FOR file is read as free form", py.nloc(e.node))
+    else:
+        rep.ob("fixed form is selected by the file extension", False,
+               f"`fixed` is `{ast.unparse(fx)}`, not a test of the extension against fixed_extensions", py.nloc(ctor[0]))
     pi = py.func("Project.__init__")
-    ok = "self.fixed_extensions = settings.fixed_extensions" in ast.unparse(pi)
+    asg = astq.assignments(pi, "self.fixed_extensions")
+    ok = bool(asg) and all("fixed_extensions" in ast.unparse(v) and "settings" in ast.unparse(v) for _, v in asg)
     rep.ob("project takes fixed_extensions from the settings", ok, "", py.nloc(pi))
-    sf = py.func("FortranSourceFile.__init__")
-    rd = [c for c in py.walk_calls(sf) if call_name(c) == "FortranReader"]
-    a = [ast.unparse(x) for x in rd[0].args] if rd else []
-    ok = len(a) >= 7 and a[5] == "fixed" and a[6] == "settings.fixed_length_limit"
-    rep.ob("source file passes fixed and fixed_length_limit to the reader", ok,
-           "FortranReader(..., fixed, settings.fixed_length_limit, ...)" if ok else f"reader arguments {a[5:7]}",
-           py.nloc(rd[0]) if rd else py.nloc(sf))
     fr = py.func("FortranReader.__init__")
-    params = [x.arg for x in fr.args.args]
-    ok = params[6:8] == ["fixed", "length_limit"]
-    rep.ob("reader parameter order (fixed, length_limit)", ok, f"{params[6:8]}", py.nloc(fr))
-    t = ast.unparse(fr)
-    ok = re.search(r"if fixed:\s+self\.reader = convertToFree\(self\.reader, length_limit\)", t) is not None
+    rd = [c for c in py.walk_calls(sdef) if call_name(c) == "FortranReader"]
+    if not rd:
+        raise AnalysisError("FortranSourceFile.__init__: FortranReader call not found")
+    b = astq.bind_args(rd[0], fr, skip_self=True)
+    ok = "fixed" in b and ast.unparse(b["fixed"]) == "fixed" and "length_limit" in b and "fixed_length_limit" in ast.unparse(b["length_limit"])
+    rep.ob("source file passes fixed and fixed_length_limit to the reader", ok,
+           "FortranReader(..., fixed=fixed, length_limit=settings.fixed_length_limit)" if ok else
+           f"reader arguments fixed={ast.unparse(b['fixed']) if 'fixed' in b else 'default'}, "
+           f"length_limit={ast.unparse(b['length_limit']) if 'length_limit' in b else 'default'}", py.nloc(rd[0]))
+    ev = astq.trace(fr)
+    cvt = [e for e in ev if e.kind == "call" and call_name(e.node) == "convertToFree"]
+    cdef = py.func("fixed2free2.convertToFree")
+    ok = bool(cvt) and any(c == "fixed" for c in cvt[0].cond_texts()) and \
+        ast.unparse(astq.bind_args(cvt[0].node, cdef).get("length_limit", ast.Constant(value=None))) == "length_limit"
     rep.ob("reader converts fixed form with the configured limit", ok,
            "convertToFree(self.reader, length_limit) under `if fixed`" if ok else
            "the length limit is not forwarded to convertToFree (or conversion is unconditional)", py.nloc(fr))
-    ok = "self.fixed = fixed" in t and "self.length_limit = length_limit" in t
+    ok = any(ast.unparse(v) == "fixed" for _, v in astq.assignments(fr, "self.fixed")) and \
+        any(ast.unparse(v) == "length_limit" for _, v in astq.assignments(fr, "self.length_limit"))
     rep.ob("reader remembers form and limit for included files", ok, "", py.nloc(fr))
     inc = py.func("FortranReader.include")
     rd = [c for c in py.walk_calls(inc) if call_name(c) == "FortranReader"]
-    a = [ast.unparse(x) for x in rd[0].args] if rd else []
-    ok = len(a) >= 7 and a[5] == "self.fixed" and a[6] == "self.length_limit"
+    if not rd:
+        raise AnalysisError("FortranReader.include: nested FortranReader call not found")
+    b = astq.bind_args(rd[0], fr, skip_self=True)
+    ok = "fixed" in b and ast.unparse(b["fixed"]) == "self.fixed" and "length_limit" in b and ast.unparse(b["length_limit"]) == "self.length_limit"
     rep.ob("included files are read in the same form with the same limit", ok,
-           "nested FortranReader(..., self.fixed, self.length_limit, ...)" if ok else f"nested reader gets {a[5:7]}",
-           py.nloc(rd[0]) if rd else py.nloc(inc))
+           "nested FortranReader(..., self.fixed, self.length_limit, ...)" if ok else
+           f"nested reader gets fixed={ast.unparse(b['fixed']) if 'fixed' in b else 'default'}, "
+           f"length_limit={ast.unparse(b['length_limit']) if 'length_limit' in b else 'default (True)'}",
+           py.nloc(rd[0]))
     po = py.func("ProjectSettings.__post_init__")
-    ok = "if fixed_extension in self.extensions" in ast.unparse(po) and "raise ValueError" in ast.unparse(po)
+    pev = astq.trace(po)
+    ok = any(e.kind == "raise" and "ValueError" in e.text() and any("extensions" in c and " in " in c for c in e.cond_texts())
+             and any("fixed" in x for x in e.cond_texts() + [ast.unparse(l.iter) for l in e.loops]) for e in pev)
     rep.ob("an extension cannot be both fixed and free form", ok, "", py.nloc(po))
     lx = py.func("FortranSourceFile.__init__")
-    ok = "FortranFixedLexer() if self.fixed else FortranLexer()" in ast.unparse(lx)
+    ok = any(isinstance(n, (ast.IfExp, ast.If)) and "fixed" in ast.unparse(n.test) and "FortranFixedLexer" in ast.unparse(n) for n in ast.walk(lx))
     rep.ob("source listing uses the matching lexer", ok, "", py.nloc(lx), nontrivial=False)
 
 
 RULES = [
-    RuleSpec("C14.R1", r1_columns, "column table agreement", floor=14),
-    RuleSpec("C14.R2", r2_form_selection, "form selection plumbing", floor=8),
+    RuleSpec("C14.R1", r1_columns, "column table agreement", floor=12),
+    RuleSpec("C14.R2", r2_form_selection, "form selection plumbing", floor=7),
 ]
